@@ -62,6 +62,11 @@ def gen_cases(ctx):
     base = S.expr_cases(ctx, 4000 if q else 400000, 2500 if q else 250000, 500 if q else 50000, 500 if q else 50000, 300 if q else 30000)
     for _, e in base:
         cases.append((rng.choice(PREFIXES) + e, G.rand_doc(rng, 3)))
+    # errors reported at the end of the input (the end marker sits at the BYTE length) after multi-byte characters
+    for _ in range(300 if q else 6000):
+        head = rng.choice(["'é' && ", "\"é😀\".", "'😀😀'|", "`\"中\"` || ", "é", "'ü'\n&& ", "\"k\u00e9y\"", "a.\"ß\"[", "'日本'"])
+        tail = rng.choice(["a.", "a[", "a ||", "[a,", "{a:", "f(", "a[?b", "!", "a.b.", "a[1:", "a &&", "(a", "a |", "a ==", "[", "{", "a.*.", "f(a,", "&", "a[*].", ""])
+        cases.append((head + tail, "n"))
     # step-0 slices wherever a slice can stand (the error points at that slice, also when an enclosing call is being evaluated)
     for _ in range(300 if q else 6000):
         sl = rng.choice(["[::0]", "[1:2:0]", "[ : : 0 ]", "[-1::0]"])
